@@ -742,7 +742,7 @@ def robustness(pid, tier, replay):
                     found.append((p, "ninja's %s reader: %s (status %s) on a mutated input" % (mode, j["kind"], j["status"])))
         write_evidence(pid, tier, "exploration", {
             "evaluations": total, "distinct_nontrivial": total - sum(1 for _ in ()) - len(spec),
-            "rule": "for each of 8 input formats every concatenation of at most max_tokens tokens of the alphabet of spec/Fuzz.tla (all distinct, all but the empty input non-trivial), "
+            "rule": "for each input format (the manifest format also with the values of three rule bindings enumerated and every binding of every statement expanded after loading) every concatenation of at most max_tokens tokens of the alphabet of spec/Fuzz.tla (all distinct, all but the empty input non-trivial), "
                     "plus seeded byte mutations of valid manifests (rendered by TLC from Manifest.tla) and of logs written by the real writers; run through the real parsers/loaders "
                     "built with ASan+UBSan (alignment check off), watchdog 20 s per input, Fatal() = reported error",
             "samples": [{"format": m, "alphabet_size": v["tokens"], "max_tokens": v["max_tokens"], "inputs": v["inputs"]} for m, v in per.items()],
